@@ -1,0 +1,127 @@
+//go:build verif
+
+package mavl
+
+import (
+	"sync/atomic"
+
+	dbm "github.com/33cn/chain33/common/db"
+)
+
+// Hooks for the runtime-monitoring harness (C01/C02/C03). Add-only, compiled with -tags verif.
+
+var verifRotL, verifRotR int64
+
+// verifRotate counts executed rotations (0 = rotateLeft, 1 = rotateRight).
+func verifRotate(kind int) {
+	if kind == 0 {
+		atomic.AddInt64(&verifRotL, 1)
+	} else {
+		atomic.AddInt64(&verifRotR, 1)
+	}
+}
+
+// VerifRotations returns the number of left / right rotations executed so far in this process.
+func VerifRotations() (left, right int64) {
+	return atomic.LoadInt64(&verifRotL), atomic.LoadInt64(&verifRotR)
+}
+
+// VerifResetGlobals puts the package-level state back to what a fresh process has.
+func VerifResetGlobals() {
+	heightMtx.Lock()
+	maxBlockHeight = 0
+	heightMtx.Unlock()
+	memTree = nil
+	tkCloseCache = nil
+	quit = false
+	secLvlPruningH = 0
+	setPruning(pruningStateEnd)
+}
+
+// VerifClearGlobals has the observable effect of VerifResetGlobals for a process that keeps using the same
+// mem-tree options, but empties the global node caches in place instead of dropping them (the 500k-bucket
+// map is expensive to allocate again for every case).
+func VerifClearGlobals() {
+	heightMtx.Lock()
+	maxBlockHeight = 0
+	heightMtx.Unlock()
+	quit = false
+	secLvlPruningH = 0
+	setPruning(pruningStateEnd)
+	if tm, ok := memTree.(*TreeMap); ok && tm != nil {
+		tm.lock.Lock()
+		for k := range tm.mpCache {
+			delete(tm.mpCache, k)
+		}
+		tm.lock.Unlock()
+	}
+	if ta, ok := tkCloseCache.(*TreeARC); ok && ta != nil {
+		ta.arcCache.Purge()
+	}
+}
+
+// VerifGlobalMemLen reports the sizes of the process-global node caches (-1 when not allocated).
+func VerifGlobalMemLen() (mem int, tk int) {
+	mem, tk = -1, -1
+	if memTree != nil {
+		mem = memTree.Len()
+	}
+	if tkCloseCache != nil {
+		tk = tkCloseCache.Len()
+	}
+	return
+}
+
+// VerifNode is one node as seen by VerifWalk.
+type VerifNode struct {
+	Hash      []byte // database key of the node (prefixed when the prefix option is on)
+	Key       []byte
+	Value     []byte
+	Height    int32
+	Size      int32
+	LeftHash  []byte
+	RightHash []byte
+	Depth     int
+}
+
+// VerifWalk visits, pre-order (node, left subtree, right subtree), every node reachable from root.
+// raw=true reads the persisted records straight from db (no node cache, no global mem tree);
+// raw=false loads through nodeDB.GetNode exactly like the tree code does.
+// A missing / undecodable node ends the walk with an error.
+func VerifWalk(db dbm.DB, root []byte, cfg *TreeConfig, raw bool, fn func(n *VerifNode) bool) error {
+	if len(root) == 0 || string(root) == string(emptyRoot[:]) {
+		return nil
+	}
+	t := NewTree(db, true, cfg)
+	var walk func(hash []byte, depth int) (bool, error)
+	walk = func(hash []byte, depth int) (bool, error) {
+		var node *Node
+		var err error
+		if raw {
+			buf, e := db.Get(hash)
+			if len(buf) == 0 || e != nil {
+				return false, ErrNodeNotExist
+			}
+			node, err = MakeNode(buf, t)
+		} else {
+			node, err = t.ndb.GetNode(t, hash)
+		}
+		if err != nil {
+			return false, err
+		}
+		vn := &VerifNode{Hash: hash, Key: node.key, Value: node.value, Height: node.height, Size: node.size,
+			LeftHash: node.leftHash, RightHash: node.rightHash, Depth: depth}
+		if fn(vn) {
+			return true, nil
+		}
+		if node.height == 0 {
+			return false, nil
+		}
+		if stop, err := walk(node.leftHash, depth+1); stop || err != nil {
+			return stop, err
+		}
+		return walk(node.rightHash, depth+1)
+	}
+	_, err := walk(root, 0)
+	return err
+}
